@@ -15,6 +15,7 @@
 package simrt
 
 import (
+	"os"
 	"fmt"
 	"runtime"
 	"sort"
@@ -603,6 +604,9 @@ func (s *Sched) taskExit(t *Task) {
 		t.PanicStk = string(buf[:runtime.Stack(buf, false)])
 		if !s.abort.Load() {
 			s.Fail("panic-escaped-task", "task %s panicked: %v", t, p)
+			if os.Getenv("VERIF_DEBUG") != "" {
+				fmt.Fprintf(os.Stderr, "--- panic in task %s: %v\n%s\n", t, p, t.PanicStk)
+			}
 		}
 	}
 	t.state.Store(int32(stDone))
